@@ -847,6 +847,14 @@ class CppMachine:
                 e0 = strip(e)
                 while isinstance(e0, dict) and e0.get('k') == 'cast' and e0.get('ck') in ('NoOp', 'IntegralCast', 'IntegralToBoolean', 'LValueToRValue'):
                     e0 = strip(e0['e'])
+                if isinstance(e0, dict) and e0.get('k') == 'bin' and e0.get('op') in ('==', '!=', '<', '<=', '>', '>=') and \
+                        any(isinstance(x, dict) and x.get('k') == 'call' for x in walk(e0)):
+                    outs = []
+                    for (r, s2) in self.cond(st, e0):
+                        s2.fr.ret = ZPoly.const(1 if r else 0)
+                        s2.fr.returned = True
+                        outs.append(s2)
+                    return outs
                 if isinstance(e0, dict) and e0.get('k') == 'call':
                     # `return f(...)` where f has several outcomes: one returning state per outcome
                     outs = []
@@ -1105,6 +1113,33 @@ class CppMachine:
                 st.p.mem[(d[0], d[1] + i)] = v
             st.fr.ret_from_call = None
             return [st]
+        if name == 'memcmp' and (callee is None or 'body' not in callee):
+            # used only as an equality test: two outcomes, `all words equal` (with the facts) and `some word differs` (value 1)
+            n = self.int_const(st, args[2])
+            d, s_ = self.pointer(st, args[0]), self.pointer(st, args[1])
+            if n % self.wb:
+                raise Unsupported('memcmp over a partial word at %s' % loc_str(e))
+            pairs = [(self.rd_word(st, d[0], d[1] + i), self.rd_word(st, s_[0], s_[1] + i)) for i in range(0, n, self.wb)]
+            outs = []
+            s_eq = st.fork()
+            feasible = True
+            for (x, y) in pairs:
+                dd = self.subst(s_eq, x - y)
+                if dd.is_const():
+                    if dd.const_value() != 0:
+                        feasible = False
+                    continue
+                s_eq.p.rels.append((x, y, frozenset({'eq'})))
+            if feasible:
+                s_eq.p.trace.append('memcmp==0 at %s' % loc_str(e))
+                s_eq.fr.ret_from_call = ZERO
+                outs.append(s_eq)
+            if not all(self.subst(st, x - y).is_zero() for (x, y) in pairs):
+                s_ne = st.fork()
+                s_ne.p.trace.append('memcmp!=0 at %s' % loc_str(e))
+                s_ne.fr.ret_from_call = ONE
+                outs.append(s_ne)
+            return outs
         if name == 'memset' and (callee is None or 'body' not in callee):
             n = self.int_const(st, args[2])
             d = self.pointer(st, args[0])
@@ -1958,6 +1993,9 @@ def _writes_only_first_param(fn):
 
 def _compare_with_refinement(self, st, e):
     callee = self.prog.callee(e, st.fr.fn)
+    hooks = getattr(self, 'call_hooks', None)
+    if hooks and callee is not None and strip_tmpl(callee.get('qn', '')) in hooks:
+        return hooks[strip_tmpl(callee['qn'])](self, st, e, callee)
     hv = getattr(self, 'havoc_calls', None)
     if hv and callee is not None and 'body' in callee and strip_tmpl(callee['qn']) in hv:
         if not _writes_only_first_param(callee):
@@ -2768,3 +2806,99 @@ def check_bitserial_step(prog, fn, wordbits):
         if len(msgs) > 4:
             break
     return (msgs, nit, d)
+
+
+# ---------------------------------------------------------------------------------------------- Legendre symbol (C02, C09, C10)
+def rule_legendre(ctx, cfg, prog, rule='R-WORDALG/c++'):
+    """Fp::legendre: the exponent computed at run time from the modulus is exactly (p - 1) / 2, the value is raised to it by the generic
+    exponentiation (its bit weights are decided by R-POLY/exp), and the verdict is 0 exactly when the power is zero, 1 exactly when it
+    is the Montgomery one, -1 otherwise.  The power routine is replaced by an arbitrary result (after recording its arguments)."""
+    from . import buildmodel as bm, consts
+    wordbits = bm.configs()[cfg]['words']
+    n_ob = 0
+    for f in sorted(prog.functions.values(), key=lambda f: f['qn']):
+        if 'body' not in f or not f['qn'].startswith('embedded_pairing::core::Fp<') or not f['qn'].endswith('::legendre'):
+            continue
+        rec = f.get('parent') or f['qn'].rsplit('::', 1)[0]
+        size = (prog.records.get(rec) or {}).get('size') or 0
+        if not size:
+            continue
+        nw = size // (wordbits // 8)
+        name = f['qn'].replace('embedded_pairing::core::', '')
+        name = name[:20] + '...' + name[-12:] if len(name) > 40 else name
+        msgs = []
+        # modulus and Montgomery one from the class constants
+        vals = {}
+        for cn in ('p_value', 'r_value'):
+            g = prog.globals.get('%s::%s' % (rec, cn))
+            hops = 0
+            while g is not None and isinstance(g.get('value'), dict) and 'lvalue' in g['value'] and hops < 8:
+                g = prog.globals.get(g['value']['lvalue'])
+                hops += 1
+            if g is not None and 'value' in g:
+                vals[cn] = consts.as_int(consts.decode(g['value']))
+        # the class constants are references to the template arguments: Fp<bits, p, r, r2, inv>
+        ta = [x.strip() for x in rec[rec.index('<') + 1:rec.rindex('>')].split(',')] if '<' in rec else []
+        for cn, idx in (('p_value', 1), ('r_value', 2)):
+            if not isinstance(vals.get(cn), int) and len(ta) > idx:
+                g = prog.globals.get(ta[idx])
+                if g is not None and 'value' in g:
+                    vals[cn] = consts.as_int(consts.decode(g['value']))
+        if not isinstance(vals.get('p_value'), int) or not isinstance(vals.get('r_value'), int):
+            raise bm.AnalysisBroken('%s: modulus / Montgomery one not found' % f['qn'])
+        P, Rm = vals['p_value'], vals['r_value']
+        calls = []
+        try:
+            m = CppMachine(prog, wordbits, {'SELF': nw})
+            m.infer = True
+            m.junk_locals = True
+            m.topdown_splits = True
+
+            def hook(mach, st, e, callee):
+                args = e.get('args', [])
+                objs = []
+                for a in args[:3]:
+                    x = a
+                    while isinstance(x, dict) and x.get('k') == 'cast' and x.get('ck') in ('NoOp', 'DerivedToBase', 'UncheckedDerivedToBase'):
+                        x = x['e']
+                    objs.append(mach.lvalue(st, x))
+                expo = sum((mach.rd_word(st, objs[2][0], objs[2][1] + i * mach.wb) * (mach.W ** i) for i in range(nw)), ZPoly())
+                calls.append((objs[1], mach.subst(st, expo)))
+                mach.inputs['POW'] = nw
+                for i, wv in enumerate(words_of(mach, 'POW', nw)):
+                    st.p.mem[(objs[0][0], objs[0][1] + i * mach.wb)] = wv
+                st.fr.ret_from_call = None
+                return [st]
+            m.call_hooks = {'embedded_pairing::core::exponentiate': hook}
+            st = St(Path(), [Frame(f, ('SELF', 0))])
+            finals = m.exec(st, f['body'])
+        except Unsupported as e:
+            raise bm.AnalysisBroken('R-WORDALG/c++ cannot model %s: %s' % (f['qn'], e))
+        if len(calls) < 1 or any(c[0] != ('SELF', 0) for c in calls):
+            msgs.append('the value itself is not what is raised to the power')
+        for (_, ex) in calls:
+            if not (ex.is_const() and ex.const_value() == (P - 1) // 2):
+                msgs.append('the exponent is %r, not (p - 1) / 2' % ex)
+        T = bigw(m, words_of(m, 'POW', nw))
+        seen = set()
+        for s2 in finals:
+            rv = s2.fr.ret
+            if not (isinstance(rv, ZPoly) and rv.is_const() and rv.const_value() in (0, 1, -1)):
+                msgs.append('a path returns %r' % (rv,))
+                continue
+            rv = rv.const_value()
+            seen.add(rv)
+            isz = path_normal(m, s2, T).is_zero()
+            iso = path_normal(m, s2, T - Rm).is_zero()
+            if rv == 0 and not isz:
+                msgs.append('0 is returned on a path where the power is not established to be zero')
+            if rv == 1 and not iso:
+                msgs.append('1 is returned on a path where the power is not established to be one')
+            if rv == -1 and (isz or iso):
+                msgs.append('-1 is returned although the power is zero / one')
+        if seen != {0, 1, -1}:
+            msgs.append('not all of 0, 1, -1 can be returned (%s)' % sorted(seen))
+        n_ob += 1
+        ctx.ob(rule, not msgs, 'wordalg-c++|%s|legendre' % name, loc_str(f), '%s: %s' % (f['qn'][:80], ' ;; '.join(msgs[:2])), cfg=cfg,
+               sample=dict(config=cfg, routine=name, paths=len(finals), specification='exponent (p-1)/2; 0 / 1 / -1 exactly for power zero / one / other'))
+    return n_ob
